@@ -2,6 +2,8 @@
 returns replies in the same canonical JSON form the Lean driver prints."""
 from __future__ import annotations
 
+import json
+
 import codec as C
 from codec import sansldap, M, CT
 from sansldap import asn1 as A
@@ -36,6 +38,7 @@ def _options(regs) -> M.PackingOptions:
 class Impl:
     def __init__(self):
         self.sessions = {}
+        self.retained = {}    # session name -> [(message object handed out by receive, its JSON at that time)]
 
     # ------------------------------------------------------------ pure ops
     def pure(self, op, j):
@@ -233,6 +236,22 @@ class Impl:
             return {"ok": None}
         if op == "call":
             s = self.sessions[j["name"]]
-            o, _ = self.outcome(s, j["call"])
+            o, r = self.outcome(s, j["call"])
+            if o.get("k") == "msgs" and isinstance(r, list):
+                keep = self.retained.setdefault(j["name"], [])
+                for m, mj in zip(r, o["ms"]):
+                    keep.append((m, json.loads(json.dumps(mj))))
             return {"outcome": o, "sess": self.snapshot(s)}
+        if op == "retained":
+            # the message objects receive() handed to the caller earlier, looked at again now: they are the caller's results and
+            # nothing that happens later (on this or any other session) may change them
+            changed = []
+            for m, at_time in self.retained.get(j["name"], []):
+                try:
+                    now = C.msg_to_json(m)
+                except BaseException as e:  # noqa: BLE001
+                    now = {"error": type(e).__name__}
+                if now != at_time:
+                    changed.append({"at_time": at_time, "now": now})
+            return {"retained": len(self.retained.get(j["name"], [])), "changed": changed[:3]}
         return self.pure(op, j)
